@@ -26,6 +26,7 @@ import GdVerif.Run.GenMinecraft
 import GdVerif.Run.Gs3
 import GdVerif.Run.Jc2m
 import GdVerif.Run.GenGs3
+import GdVerif.Run.Gs3Faults
 import GdVerif.Run.GenJc2m
 import GdVerif.Run.Small
 /-
@@ -56,6 +57,7 @@ def allEntries : List (String × (List String → String)) := List.flatten [
   unreal2Entries,
   McDrv.minecraftEntries,
   gs3Entries,
+  gs3FaultEntries,
   jc2mEntries,
   smallEntries,
   gs1Entries,
